@@ -1,4 +1,145 @@
-import L4.Prog
+import L4.Matchers.Small
+import L4.Matchers.Wireguard
+import L4.Matchers.More
+import L4.Proofs.Router
+/-!
+# C14 — Protocol matchers accept exactly what the wire definition and the filters say
+
+`model verdict = yes ↔ declarative predicate` for the matchers whose wire definition is simple enough to state in a
+line; the executable models are tied to the Go matchers by the `match` differential, and the Go verdicts on generated
+complete messages are also compared with reference predicates evaluated by the harness.
+-/
 namespace L4.C14
-theorem placeholder : True := trivial
+open L4 L4.M L4.Gen
+
+/-- SSH: the stream starts with `SSH-` -/
+theorem ssh_spec (bs : Bytes) : ssh.run bs = .yes ↔ l4ssh_sshPrefix.length ≤ bs.length ∧ bs.take l4ssh_sshPrefix.length = l4ssh_sshPrefix := by
+  simp only [ssh, Prog.run]
+  split
+  · rename_i h
+    split <;> simp_all
+  · simp; omega
+
+/-- PROXY protocol: the first 12 bytes are the v2 signature or start with `PROXY` -/
+theorem proxyProto_spec (bs : Bytes) :
+    proxyProto.run bs = .yes ↔ l4proxyprotocol_headerV2Prefix.length ≤ bs.length ∧
+      (l4proxyprotocol_headerV1Prefix.isPrefixOf (bs.take l4proxyprotocol_headerV2Prefix.length) = true ∨
+       bs.take l4proxyprotocol_headerV2Prefix.length = l4proxyprotocol_headerV2Prefix) := by
+  simp only [proxyProto, Prog.run]
+  split
+  · split
+    · simp_all
+    · split <;> simp_all
+  · simp; omega
+
+/-- regexp: the first `count` bytes (default 4) satisfy the pattern -/
+theorem regexp_spec (count : Nat) (re : Bytes → Bool) (bs : Bytes) :
+    (regexp count re).run bs = .yes ↔
+      (if count = 0 then l4regexp_minCount else count) ≤ bs.length ∧
+      re (bs.take (if count = 0 then l4regexp_minCount else count)) = true := by
+  simp only [regexp, Prog.run]
+  generalize (if count = 0 then l4regexp_minCount else count) = c
+  by_cases h : c ≤ bs.length
+  · rw [if_pos h]; by_cases hr : re (bs.take c) = true <;> simp [h, hr]
+  · rw [if_neg h]; simp [h]
+
+/-- clock: the zone-local second of the day lies in `[after, before)`, where `before = 0` means midnight and reversed
+bounds are swapped -/
+theorem clock_spec (after before now : Nat) :
+    clock after before now = .yes ↔
+      let hi := if before = 0 then 86400 else before
+      (hi < after → hi ≤ now ∧ now < after) ∧ (¬ hi < after → after ≤ now ∧ now < hi) := by
+  simp only [clock, clockNorm]
+  split <;> split <;> simp_all <;> omega
+
+/-- remote_ip / local_ip: some configured prefix of the same family contains the address -/
+theorem ip_spec (ps : List Prefix) (is6 : Bool) (ip : Nat) :
+    ipMatch ps is6 ip = .yes ↔ ∃ p ∈ ps, p.contains is6 ip = true := by
+  simp only [ipMatch]
+  split <;> simp_all
+
+/-- `not`: matches iff every inner matcher set says no (C02.not_negates) -/
+theorem not_spec {κ : Type} (ss : List (MatcherSet κ)) (cx : κ) :
+    notMatch ss cx = .yes ↔ ∀ s ∈ ss, setMatch s cx = .no := by
+  induction ss with
+  | nil => simp [notMatch]
+  | cons s ss ih =>
+    simp only [notMatch, List.mem_cons, forall_eq_or_imp]
+    cases hs : setMatch s cx <;> simp [ih]
+
+/-- DNS filter decision per question, stated declaratively: class and type must be known; with rules configured, a question
+matched by a deny rule passes only if it is also allowed and `prefer_allow` is set; an unmatched question passes unless
+`default_deny` is set or only allow rules exist; an allowed, not denied question passes. -/
+def dnsAccept (cfg : DnsCfg) (q : DnsQ) : Bool :=
+  q.classFound && q.typeFound &&
+    (if q.denied then q.allowed && cfg.preferAllow && cfg.hasAllow
+     else q.allowed || !(cfg.defaultDeny || (cfg.hasAllow && !cfg.hasDeny)))
+
+/-- the two are equal whenever the `denied` / `allowed` bits are consistent with the rule lists (no rules ⇒ never matched) -/
+theorem dns_decision_spec (cfg : DnsCfg) (q : DnsQ) (h1 : cfg.hasAllow = false → q.allowed = false)
+    (h2 : cfg.hasDeny = false → q.denied = false) : dnsReject cfg q = !dnsAccept cfg q := by
+  cases cfg with
+  | mk ha hd pa dd =>
+    cases q with
+    | mk cf tf de al =>
+      simp only [dnsReject, dnsAccept]
+      cases ha <;> cases hd <;> cases pa <;> cases dd <;> cases cf <;> cases tf <;> cases de <;> cases al <;> simp_all
+
+/-- a DNS message matches iff it parses to exactly its length, is a plain query with at least one question, and (with rules
+configured) every question is accepted -/
+theorem dns_spec (cfg : DnsCfg) (n : Nat) (m : DnsMsg)
+    (hc : ∀ q ∈ m.qs, (cfg.hasAllow = false → q.allowed = false) ∧ (cfg.hasDeny = false → q.denied = false)) :
+    dnsDecide cfg n (some m) = .yes ↔
+      m.len = n ∧ m.qs ≠ [] ∧ m.response = false ∧ m.rcodeOk = true ∧ m.zero = false ∧
+      ((cfg.hasAllow = true ∨ cfg.hasDeny = true) → ∀ q ∈ m.qs, dnsAccept cfg q = true) := by
+  simp only [dnsDecide]
+  have hrej : ∀ q ∈ m.qs, dnsReject cfg q = !dnsAccept cfg q := fun q hq => dns_decision_spec cfg q (hc q hq).1 (hc q hq).2
+  split
+  · simp_all
+  · split
+    · rename_i h; simp; intro _ h1 h2 h3 h4; simp_all
+    · split
+      · rename_i h
+        simp only [reduceCtorEq, false_iff]
+        intro hh
+        obtain ⟨hany, hq⟩ := h
+        simp only [List.any_eq_true] at hq
+        obtain ⟨q, hqm, hqr⟩ := hq
+        have := hh.2.2.2.2.2 (by simpa using hany) q hqm
+        rw [hrej q hqm, this] at hqr
+        simp at hqr
+      · rename_i h1 h2 h3
+        simp only [true_iff]
+        refine ⟨by simpa using h1, ?_⟩
+        simp only [not_or, Bool.not_eq_true, Bool.not_eq_false] at h2
+        refine ⟨by simpa [List.isEmpty_iff] using h2.1, by simpa using h2.2.1, by simpa using h2.2.2.1, by simpa using h2.2.2.2, ?_⟩
+        intro hr q hq
+        simp only [not_and, List.any_eq_true, not_exists] at h3
+        have := h3 (by simpa using hr) q
+        rw [hrej q hq] at this
+        simpa using this hq
+
+/-- WireGuard: a 148-byte initiation or a 32-byte keep-alive whose type word carries the configured reserved bytes -/
+theorem wireguard_spec (zero : Nat) (bs : Bytes) (hne : bs ≠ []) :
+    (Wireguard.matcher zero).run bs = .yes ↔
+      (bs.length = l4wireguard_MessageInitiationBytesTotal ∧ leNat (bs.take 4) = zero % 2 ^ 32 / 256 * 256 + l4wireguard_MessageTypeInitiation) ∨
+      (bs.length = l4wireguard_MessageTransportBytesMin ∧ leNat (bs.take 4) = zero % 2 ^ 32 / 256 * 256 + l4wireguard_MessageTypeTransport) := by
+  have hl : 1 ≤ bs.length := by cases bs <;> simp_all
+  simp only [Wireguard.matcher, Prog.run, l4wireguard_MessageInitiationBytesTotal, l4wireguard_MessageTransportBytesMin]
+  rw [if_neg (by omega), if_neg (by omega)]
+  by_cases h149 : 149 ≤ bs.length
+  · have hm : min (148 + 1) bs.length = 149 := by omega
+    rw [if_pos (by omega)]
+    simp only [hm, List.length_take]
+    have : min 149 bs.length = 149 := by omega
+    simp [this, Prog.run]; omega
+  · have hm : min (148 + 1) bs.length = bs.length := by omega
+    rw [if_pos (by omega)]
+    simp only [hm, List.take_length, List.take_take]
+    split
+    · rename_i h; simp only [Prog.run]; split <;> simp_all
+    · split
+      · rename_i h1 h2; simp only [Prog.run]; split <;> simp_all
+      · simp_all [Prog.run]
+
 end L4.C14
